@@ -168,6 +168,7 @@ def correspondence(ctx, model_ok=True):
     except Exception as e:
         broken.append("checked harness build failed: %s" % str(e)[-200:])
     n_runs = 0
+    budget_cut = 0
     for bname, exe, mode in builds:
         todo = plist
         if bname != "release" and not ctx.thorough:
@@ -177,10 +178,20 @@ def correspondence(ctx, model_ok=True):
         todo = todo + [(n, s, {}) for n, s, bs in known if bname in bs]
         # one program per process and a generous wall-clock limit: a native sweep performs ~190k operations and, in the checked build
         # (a collection at every allocation), takes minutes
-        res, _ = progs.run_programs(exe, todo, mode, steps_budget=400000000, tag=bname[0], timeout_per_batch=5400, batch=1)
+        heavy = [p for p in todo if not p[0].startswith("gen:")]
+        light = [p for p in todo if p[0].startswith("gen:")]
+        res_h, _ = progs.run_programs(exe, heavy, mode, steps_budget=400000000, tag=bname[0], timeout_per_batch=5400, batch=1)
+        # generated programs may legitimately run for ever (unbounded recursion trees, long loops): a small step budget, and running
+        # out of it is not a failure of THIS property
+        res_l, _ = progs.run_programs(exe, light, mode, steps_budget=1500000, tag=bname[0] + "g", timeout_per_batch=900)
+        todo = heavy + light
+        res = res_h + res_l
         n_runs += len(todo)
         for (name, src, mods), r in zip(todo, res):
             bad = outcome_ok(r)
+            if bad == "did not finish within the step budget" and name.startswith("gen:"):
+                budget_cut += 1
+                bad = None
             c = progs.canon_step(r)
             if not bad and name.split(":")[0] in ("natives", "natives3", "binop", "misc", "limit") and (c[0] != "ok" or not c[2] or c[2][-1] != "done"):
                 bad = "sweep program ended with %s %s instead of running to completion" % (c[0], list(c[3])[:1])
@@ -192,7 +203,7 @@ def correspondence(ctx, model_ok=True):
                                  "signature": ("known " + name.split("-")[0]) if name.startswith("F") else "no-crash: %s: %s" % (name.split(":")[0] + ":" + name.split(":")[-1], bad.split(":")[0][:40]),
                                  "failing_input": True})
     cov = {
-        "evaluations": n_runs,
+        "evaluations": n_runs, "generated_runs_cut_by_the_step_budget": budget_cut,
         "distinct_nontrivial": len(sweeps) + len(gen),
         "rule": "sweep programs: every method name x 57 receivers/arguments of every value kind (adversarial pool) x all argument tuples of arity 0-2 "
                 "(+sampled arity 3), every binary operator x all pairs, unary/index/slice/call/property/for/display/hash/throw/type/equality/tuple/range/fiber/"
